@@ -194,6 +194,11 @@ func genDedup(r *vlib.R, tier string, emit func(string)) {
 		emit(fmt.Sprintf("dedup burst ok%d %d %d %d %s 0", 300+r.Intn(150), 2+r.Intn(4), r.Intn(3), r.Intn(2), cancel()))
 		emit(fmt.Sprintf("dedup burst hang %d %d %d - 0", 2+r.Intn(3), 1+r.Intn(2), r.Intn(2)))
 		emit("dedup drain")
+		// one worker: a finished reply staged ahead of a slow miss must not wait for it
+		emit("dedup new 700 0 1")
+		emit(fmt.Sprintf("dedup quickslow udp %d %d", 40+r.Intn(60), 450+r.Intn(150)))
+		emit(fmt.Sprintf("dedup quickslow tcp %d %d", 40+r.Intn(60), 450+r.Intn(150)))
+		emit("dedup drain")
 		// two workers, queue of one: queueing and overflow goroutines (fast upstream only)
 		emit("dedup new 700 0 2")
 		emit(fmt.Sprintf("dedup burst ok%d %d %d %d %s 0", 20+r.Intn(60), 4+r.Intn(6), r.Intn(3), r.Intn(2), cancel()))
@@ -267,6 +272,7 @@ func genWave(r *vlib.R, kind string, groups int) string {
 		total += n
 	}
 	parts = append(parts, fmt.Sprintf("staged:ok:%d:z", 1+r.Intn(3)))
+	parts = append(parts, fmt.Sprintf("pipehalf:%s:%d:u", vlib.Pick(r, []string{"ok", "lag", "wrongid"}), 1+r.Intn(3)))
 	if kind == "n" {
 		parts = append(parts, fmt.Sprintf("cancellead:cold:%d:y", 3+r.Intn(3)))
 		parts = append(parts, fmt.Sprintf("cancelpair:pair:%d:x", 3+r.Intn(2)))
@@ -338,7 +344,29 @@ func genExtra(r *vlib.R, tier string, emit func(string)) {
 			}
 		}
 		emit("burst send " + strings.Join(d, ","))
+		if i%2 == 0 { // the same burst staged on a worker whose next request leaves the fast path
+			for j := range d {
+				if d[j] == "x" {
+					d[j] = "a"
+				}
+			}
+			emit("burst flush " + strings.Join(d[:1+r.Intn(n)], ","))
+		}
 	}
+	// EffectiveError over its whole domain; the cache's expiry handling for every context shape
+	for _, e := range []string{"none", "deadline", "canceled"} {
+		for _, hd := range []string{"t", "f"} {
+			for _, past := range []string{"t", "f"} {
+				emit(fmt.Sprintf("eff %s %s %s", e, hd, past))
+			}
+		}
+	}
+	kinds := []string{"live", "late", "expired", "lazy", "canceled"}
+	for i := 0; i < rounds*5; i++ {
+		emit(fmt.Sprintf("proc %s %s", vlib.Pick(r, []string{"leader", "follower"}), kinds[i%len(kinds)]))
+	}
+	emit("proc leader late")
+	emit("proc follower late")
 }
 
 func gen(r *vlib.R, n int, tier string, emit func(string)) {
